@@ -25,7 +25,7 @@ type hMod struct {
 
 func hC14Build(n1, n2 string) *hMod {
 	m := NewModule()
-	m.NewGlobalDef(n1, constant.NewInt(types.I32, 1))
+	g0 := m.NewGlobalDef(n1, constant.NewInt(types.I32, 1))
 	m.NewGlobalDef("", constant.NewInt(types.I32, 2))
 	f := m.NewFunc(n2, types.I32, NewParam("", types.I32))
 	b := f.NewBlock("")
@@ -35,6 +35,8 @@ func hC14Build(n1, n2 string) *hMod {
 	i2 := b.NewAdd(i1, named)
 	al := b.NewAlloca(types.I32)
 	al.SetName("slot")
+	lg := b.NewLoad(types.I32, g0) // a use of the global (its type is printed)
+	lg.SetName("lg")
 	b.NewRet(i2)
 	return &hMod{m: m, f: f, b: b, i1: i1, i2: i2, named: named, al: al}
 }
@@ -129,6 +131,10 @@ func hC14Observe(h *hMod, how int) {
 		_ = h.f.LLString()
 		_ = h.m.Globals[1].Ident()
 	default:
+		_ = h.m.Globals[0].Type()
+		_ = h.m.Globals[0].String()
+		_ = h.f.Params[0].Type()
+		_ = h.al.Type()
 		_ = h.i2.Type()
 		_ = h.i2.Ident()
 		_ = h.i2.Operands()
